@@ -62,7 +62,7 @@ def RULE(tier):
         )
     return (
         "as quick, but P2 = EVERY program of <= 2 steps over the full alphabet x 12 configurations; P3 = every 3-step program core x core x full x 4 configurations; "
-        "D1 = every 1-step program x EVERY partitioning into <= 4 partitions (120) x 5 index kinds; AL = all pairs of the 28 partitionings into <= 3 partitions."
+        "D1 = every 1-step program and every (column, series step) program x EVERY partitioning into <= 4 partitions (120) x 5 index kinds; AL = all pairs of the 28 partitionings into <= 3 partitions."
     )
 
 
@@ -125,7 +125,10 @@ def cases_of(shard, tier, seed, counters=None):
         allparts = dfh.partitionings(NROWS, 3 if tier == "quick" else 4)
         for ki, kind in enumerate(dfh.INDEX_KINDS):
             root = index_frame(pdf0, kind)
-            for prog, xs in P.enumerate_programs(root, ("full",), first_filter=pick, counters=counters):
+            levels = ("full",) if tier == "quick" else ("full", "full")
+            for prog, xs in P.enumerate_programs(root, levels, first_filter=pick, counters=counters):
+                if len(prog) == 2 and prog[0][0] != "col":
+                    continue  # thorough: also every (column, series step) program, so that every accessor member meets every partitioning
                 for pi, parts in enumerate(allparts):
                     if tier == "quick" and pi % len(dfh.INDEX_KINDS) != ki:
                         continue  # quick: every partitioning once, the index kind rotating over the partitionings
